@@ -5,9 +5,15 @@
    broker response at each poll / answer, any timing of the data channel against the 20 s timer).
    V1 is the repaired code (proposed-fixes/C16-release-once.diff), V0 the pinned code.
    in_use = sessions whose tokens.get() completed and for which tokens.ret() has not been called;
-   n_active = clients being negotiated with or served. *)
+   n_active = clients being negotiated with or served.
+   The second half of the file states "polls again with full capacity" in its general form, at every reachable state
+   (slot accounting, when the poll loop is enabled, and that no session can hold a slot with nothing left to run).
+   The machine's LDcOpen is "close(dataChan); go handler(...)" as ONE step: a callback that closed dataChan and then
+   returned without starting the handler (what a nil webRTCConn.RemoteAddr() must not cause) is outside the machine and
+   is what the O<x>/Q<x> cases of the correspondence (clients whose offer has no non-local address, no candidates, ...)
+   look for in the Go code. *)
 From Coq Require Import List ZArith Arith Bool.
-From Snow Require Import Model.Tokens Model.ProxySession Proofs.ProxySessionProofs.
+From Snow Require Import Model.Tokens Model.ProxySession Proofs.ProxySessionProofs Proofs.ProxySessionLiveProofs.
 Import ListNotations.
 
 (* A proxy with capacity N >= 1 never negotiates with or serves more than N clients at once. *)
@@ -151,3 +157,114 @@ Proof. eexists. vm_compute. repeat split. Qed.
 Example C16_v0_tie_free_nonvacuous :
   tie_free V0 (init 2) ex_all_paths = true /\ run V0 (init 2) ex_all_paths <> None.
 Proof. vm_compute. split; [reflexivity | discriminate]. Qed.
+
+(* ==== "after any sequence of sessions it polls again with full capacity", general form: at EVERY reachable
+   state, also with 0 < in_use < N (C16_full_capacity_again above is the special case occupied = 0).
+
+   occupied st = in_use st + releasing st: sessions whose tokens.get() completed and whose tokens.ret() has not
+   finished (ret not called yet, or called with its channel receive still to come).  free_slots N st = N - occupied st. *)
+
+(* The channel holds exactly the occupied slots; the free slots are the rest of the capacity; the counter is the
+   slots in use (plus the get in progress); the second half of get is enabled exactly when a slot is free. *)
+Theorem C16_slot_accounting : forall N ls st,
+  N >= 1 -> run V1 (init N) ls = Some st ->
+  chlen (tok st) = occupied st /\ occupied st <= N /\ free_slots N st + occupied st = N /\
+  count (tok st) = (Z.of_nat (in_use st) + (match mn st with MGetSend => 1 | _ => 0 end))%Z /\
+  (send_ready (tok st) = true <-> 0 < free_slots N st).
+Proof.
+  intros N ls st HN H. pose proof (run_inv _ _ _ H) as I. assert (N <> 0) as HN0 by (intro; subst; inversion HN).
+  destruct (inv_occupied _ _ HN0 I) as (E & L & F). repeat (split; [assumption|]).
+  split; [rewrite (inv_count _ _ I); destruct (mn st); reflexivity|]. exact (inv_send_ready_iff _ _ HN0 I).
+Qed.
+
+(* The poll loop at its head: taking a slot goes through - and the loop polls, with one more slot in use - if
+   (and for N >= 1 only if) a slot is free; otherwise the loop parks in tokens.get(). *)
+Theorem C16_poll_loop_iff_free_slot : forall N ls st,
+  run V1 (init N) ls = Some st -> mn st = MTop ->
+  exists st1, step V1 st LGet = Some st1 /\ mn st1 = MGetSend /\ in_use st1 = in_use st /\ releasing st1 = releasing st /\
+    ((N = 0 \/ 0 < free_slots N st) ->
+       exists st2, step V1 st1 LGetSend = Some st2 /\ mn st2 = MPoll /\ in_use st2 = in_use st + 1 /\
+                   releasing st2 = releasing st /\ gets st2 = S (gets st)) /\
+    (N <> 0 -> free_slots N st = 0 -> step V1 st1 LGetSend = None).
+Proof. intros N ls st H. exact (inv_poll_loop _ _ (run_inv _ _ _ H)). Qed.
+
+(* No served session can sit on a slot with nothing left to run: a session runSession has returned from and that
+   still occupies a slot has a handler goroutine, and that goroutine alone (at most 3 of its own steps: claim, end
+   of datachannelHandler, channel receive; nothing is asked of the loop, of another session, or of the peer beyond
+   datachannelHandler returning) gives the slot back: one more slot is free afterwards. *)
+Theorem C16_served_session_can_release : forall N ls st i c,
+  run V1 (init N) ls = Some st -> nth_error (bg st) i = Some c -> holds c + pend c = 1 ->
+  length (handler_path i c) <= 3 /\ Forall (own_handler_step i) (handler_path i c) /\
+  exists st' c', run V1 st (handler_path i c) = Some st' /\ handler_path i c <> [] /\
+    nth_error (bg st') i = Some c' /\ holds c' = 0 /\ pend c' = 0 /\ hp c' = HDone /\ released c' = 1 /\
+    mn st' = mn st /\ cur st' = cur st /\ length (bg st') = length (bg st) /\
+    (N <> 0 -> S (chlen (tok st')) = chlen (tok st)).
+Proof.
+  intros N ls st i c H Hn Ho. split; [apply handler_path_short|]. split; [apply handler_path_own|].
+  exact (bg_release_path _ _ _ _ (run_inv _ _ _ H) Hn Ho).
+Qed.
+
+(* Nor can the session under negotiation: from every stage of runSession there are at most 6 steps of the Start
+   goroutine inside runSession and of this session's own handler - none of them the peer opening the data channel:
+   where the broker is awaited the path takes its error answer (LPollNil, LAnswerFail), where the data channel is
+   awaited it takes the 20 s timer (LSelectTimeout) - after which runSession has returned, the loop is back at its
+   head, and the slot has been given back exactly once. *)
+Theorem C16_negotiating_session_can_release : forall N ls st c,
+  run V1 (init N) ls = Some st -> cur st = Some c -> holds c + pend c + (match mn st with MRetRecv => 1 | _ => 0 end) = 1 ->
+  length (cur_release st c) <= 6 /\ forallb (cur_session_step (length (bg st))) (cur_release st c) = true /\
+  exists st' c', run V1 st (cur_release st c) = Some st' /\ cur_release st c <> [] /\
+    mn st' = MTop /\ cur st' = None /\
+    nth_error (bg st') (length (bg st)) = Some c' /\ length (bg st') = S (length (bg st)) /\
+    holds c' = 0 /\ pend c' = 0 /\ released c' = 1 /\
+    (N <> 0 -> S (chlen (tok st')) = chlen (tok st)).
+Proof.
+  intros N ls st c H Hc Ho. split; [apply cur_release_short|]. split; [apply cur_release_steps|].
+  apply (cur_release_path _ _ _ (run_inv _ _ _ H) Hc). destruct (mn st); exact Ho.
+Qed.
+
+(* runSession itself always returns within 4 steps of the Start goroutine, whoever owns the session *)
+Theorem C16_run_session_returns : forall N ls st c,
+  run V1 (init N) ls = Some st -> cur st = Some c ->
+  length (main_exit (mn st) (own c)) <= 4 /\ forallb main_step (main_exit (mn st) (own c)) = true /\
+  exists st', run V1 st (main_exit (mn st) (own c)) = Some st' /\ mn st' = MTop /\ cur st' = None /\
+              length (bg st') = S (length (bg st)).
+Proof.
+  intros N ls st c H Hc. split; [apply main_exit_short|]. split; [apply main_exit_main|].
+  destruct (cur_exit_path _ _ _ (run_inv _ _ _ H) Hc) as (st' & c' & R & _ & M & C & B & _).
+  exists st'. repeat (split; [assumption|]). rewrite B, app_length. cbn. apply Nat.add_1_r.
+Qed.
+
+(* ---- non-vacuity: capacity 3, one client served, one session waiting for its data channel: 0 < in_use < N *)
+Definition ex_partial : list label := w_open 0 ++ [LGet; LGetSend; LPollOffer; LRelayOk; LPcOk; LAnswerOk].
+
+Example C16_slot_accounting_nonvacuous :
+  exists st, run V1 (init 3) ex_partial = Some st /\ in_use st = 2 /\ releasing st = 0 /\ free_slots 3 st = 1 /\ mn st = MSelect.
+Proof. eexists. vm_compute. repeat split. Qed.
+
+(* ... and a release in progress: occupied counts it until the channel receive *)
+Example C16_slot_accounting_releasing :
+  exists st, run V1 (init 3) (w_open 0 ++ [LH 0 HEnd]) = Some st /\ in_use st = 0 /\ releasing st = 1 /\ free_slots 3 st = 2.
+Proof. eexists. vm_compute. repeat split. Qed.
+
+Example C16_poll_loop_nonvacuous :
+  (exists st, run V1 (init 2) (w_open 0) = Some st /\ mn st = MTop /\ free_slots 2 st = 1) /\
+  (exists st, run V1 (init 2) (w_open 0 ++ w_open 1) = Some st /\ mn st = MTop /\ free_slots 2 st = 0).
+Proof. split; eexists; vm_compute; repeat split. Qed.
+
+Example C16_served_session_nonvacuous :
+  exists st c, run V1 (init 3) ex_partial = Some st /\ nth_error (bg st) 0 = Some c /\ holds c + pend c = 1 /\
+               handler_path 0 c = [LH 0 HEnd; LH 0 HRecv].
+Proof. eexists. eexists. vm_compute. repeat split. Qed.
+
+Example C16_negotiating_session_nonvacuous :
+  exists st c, run V1 (init 3) ex_partial = Some st /\ cur st = Some c /\
+               holds c + pend c + (match mn st with MRetRecv => 1 | _ => 0 end) = 1 /\
+               cur_release st c = [LSelectTimeout; LGiveUp; LClose; LMainRecv].
+Proof. eexists. eexists. vm_compute. repeat split. Qed.
+
+(* the handler owns the session under negotiation (the answer request still in flight): 2 main steps + 2 handler steps *)
+Example C16_negotiating_session_handler_owned :
+  exists st c, run V1 (init 1) [LGet; LGetSend; LPollOffer; LRelayOk; LPcOk; LDcOpen; LH 0 HClaim] = Some st /\
+               cur st = Some c /\ own c = OHandler /\
+               cur_release st c = [LAnswerFail; LGiveUp; LH 0 HEnd; LH 0 HRecv].
+Proof. eexists. eexists. vm_compute. repeat split. Qed.
